@@ -105,3 +105,124 @@ def memo_findings(mod: PyModule, fn: ast.FunctionDef, inputs: Iterable[str], mem
         elif missing:
             out.append((ln, f"{fn.name} returns a value remembered in `{cont}` under key `{unparse(key)}`, which does not include {missing}: a call with other {'/'.join(missing)} gets an earlier call's answer"))
     return out
+
+
+# ---------------------------------------------------------------------------
+# Derived-copy coherence: `if self.A is None: self.A = f(<other state>)` ... `return self.A` is a stored copy of state that lives
+# elsewhere.  It is coherent only if every function that mutates that state (directly, or by calling a mutating method of the state
+# class) also drops the copy.
+def _self_attr(t: ast.AST) -> str | None:
+    if isinstance(t, ast.Attribute) and isinstance(t.value, ast.Name) and t.value.id == "self":
+        return t.attr
+    return None
+
+
+def derived_copies(mod: PyModule) -> list[tuple[str, str, str, int]]:
+    """[(class, attr, method, line)]: attr is assigned a computed value outside __init__ and returned by the same method."""
+    out = []
+    for cls in [n for n in mod.tree.body if isinstance(n, ast.ClassDef)]:
+        for m in [x for x in cls.body if isinstance(x, (ast.FunctionDef, ast.AsyncFunctionDef))]:
+            if m.name == "__init__":
+                continue
+            stored = {}
+            for n in ast.walk(m):
+                if isinstance(n, ast.Assign):
+                    for t in n.targets:
+                        a = _self_attr(t)
+                        if a and any(isinstance(x, ast.Call) for x in ast.walk(n.value)):
+                            stored[a] = n.lineno
+            for r in ast.walk(m):
+                if isinstance(r, ast.Return) and r.value is not None:
+                    a = _self_attr(r.value)
+                    if a in stored:
+                        out.append((cls.name, a, m.name, stored[a]))
+    return out
+
+
+def state_mutators(mod: PyModule, cls_name: str) -> dict[str, set[str]]:
+    """method of `cls_name` -> names of the fields it stores into (self.a, self.a.b -> 'b', self.a[i] -> 'a'), excluding __init__."""
+    out: dict[str, set[str]] = {}
+    for cls in [n for n in mod.tree.body if isinstance(n, ast.ClassDef) and n.name == cls_name]:
+        for m in [x for x in cls.body if isinstance(x, (ast.FunctionDef, ast.AsyncFunctionDef))]:
+            if m.name == "__init__":
+                continue
+            for n in ast.walk(m):
+                ts = n.targets if isinstance(n, ast.Assign) else [n.target] if isinstance(n, (ast.AugAssign, ast.AnnAssign)) else []
+                for t in ts:
+                    b = t
+                    while isinstance(b, (ast.Attribute, ast.Subscript)):
+                        b = b.value
+                    if isinstance(b, ast.Name) and b.id == "self" and not isinstance(t, ast.Name):
+                        leaf = t
+                        while isinstance(leaf, ast.Subscript):
+                            leaf = leaf.value
+                        out.setdefault(m.name, set()).add(leaf.attr if isinstance(leaf, ast.Attribute) else "?")
+    return out
+
+
+def _fields_read_by_copy(m: PyModule, cls: str, attr: str) -> set[str] | None:
+    """attribute names read while building the stored copy (through one module-level helper); None = unknown (treat as everything)."""
+    for c in [n for n in m.tree.body if isinstance(n, ast.ClassDef) and n.name == cls]:
+        for n in ast.walk(c):
+            if isinstance(n, ast.Assign) and any(_self_attr(t) == attr for t in n.targets) and isinstance(n.value, ast.Call) and isinstance(n.value.func, ast.Name):
+                helper = [f for f in m.tree.body if isinstance(f, ast.FunctionDef) and f.name == n.value.func.id]
+                if not helper:
+                    return None
+                return {a.attr for a in ast.walk(helper[0]) if isinstance(a, ast.Attribute) and isinstance(a.ctx, ast.Load)}
+    return None
+
+
+def incoherent_copies(mods: list[PyModule], state_mod: PyModule, state_cls: str, stat_attrs: Iterable[str] = ()) -> tuple[list[tuple[str, int, str]], int]:
+    """([(module rel, line, description)], functions scanned).  `stat_attrs`: attributes of the state class that are statistics, whose
+    mutation need not invalidate (not part of what the copy is used for) - none by default."""
+    copies = [(m, c) for m in mods for c in derived_copies(m)]
+    muts = state_mutators(state_mod, state_cls)
+    scanned = 0
+    out: list[tuple[str, int, str]] = []
+    for m in mods:
+        for cls in [n for n in m.tree.body if isinstance(n, ast.ClassDef)]:
+            for fn in [x for x in cls.body if isinstance(x, (ast.FunctionDef, ast.AsyncFunctionDef))]:
+                scanned += 1
+    if not copies:
+        return out, scanned
+    inval_methods: set[str] = set()
+    for m, (cls, attr, _meth, _ln) in copies:
+        for c in [n for n in m.tree.body if isinstance(n, ast.ClassDef) and n.name == cls]:
+            for fn in [x for x in c.body if isinstance(x, ast.FunctionDef)]:
+                if any(isinstance(n, ast.Assign) and any(_self_attr(t) == attr for t in n.targets) and isinstance(n.value, ast.Constant) and n.value.value is None for n in ast.walk(fn)):
+                    inval_methods.add(fn.name)
+    for m in mods:
+        if m is state_mod:
+            pass
+        for cls in [n for n in m.tree.body if isinstance(n, ast.ClassDef)]:
+            if m is state_mod and cls.name == state_cls:
+                continue
+            for fn in [x for x in cls.body if isinstance(x, (ast.FunctionDef, ast.AsyncFunctionDef))]:
+                if fn.name == "__init__":
+                    continue
+                mutates = []
+                for n in ast.walk(fn):
+                    if isinstance(n, ast.Call) and isinstance(n.func, ast.Attribute) and n.func.attr in muts and not (isinstance(n.func.value, ast.Name) and n.func.value.id == "self"):
+                        mutates.append((n.lineno, f"{unparse(n.func)}()", muts[n.func.attr]))
+                    ts = n.targets if isinstance(n, ast.Assign) else [n.target] if isinstance(n, ast.AugAssign) else []
+                    for t in ts:
+                        ch = unparse(t)
+                        if (".state." in ch or ".vram" in ch) and not ch.startswith("self."):
+                            mutates.append((n.lineno, ch, {ch.split("[")[0].split(".")[-1]}))
+                if not mutates:
+                    continue
+                relevant = []
+                for _m, (ccls, attr, _meth, _cln) in copies:
+                    rd = _fields_read_by_copy(_m, ccls, attr)
+                    relevant.append(rd)
+                mutates = [(ln, what, w) for (ln, what, w) in mutates if any(rd is None or w is None or (w & rd) for rd in relevant)]
+                if not mutates:
+                    continue
+                invalidates = any((isinstance(n, ast.Call) and isinstance(n.func, ast.Attribute) and n.func.attr in inval_methods)
+                                  or (isinstance(n, ast.Assign) and any(_self_attr(t) in {c[1][1] for c in copies} for t in n.targets) and isinstance(n.value, ast.Constant) and n.value.value is None)
+                                  for n in ast.walk(fn))
+                if not invalidates:
+                    ln, what, _w = mutates[0]
+                    for _m, (ccls, attr, meth, cln) in copies:
+                        out.append((m.rel, ln, f"{cls.name}.{fn.name} changes chip state through {what} without dropping {ccls}.{attr}, the stored copy that {ccls}.{meth} returns (line {cln}): later readers of {meth} - the snapshot saver among them - see the state before the change"))
+    return out, scanned
